@@ -164,6 +164,130 @@ func polyRow(p Poly) *row {
 // non-linear monomial as an independent variable.  A result of false is a proof of infeasibility;
 // true means "not refuted".
 func Sat(cs []Constraint) bool {
+	return satCore(withProductAxioms(withDivAxioms(cs)))
+}
+
+// withProductAxioms: a non-linear monomial is an independent variable for the linear solver; when every
+// factor has a provable non-negative lower bound l_i (tried: 2, 1, 0), the monomial is at least the product
+// of the bounds, and at least each single factor times the bounds of the others.
+func withProductAxioms(cs []Constraint) []Constraint {
+	monos := map[string]bool{}
+	for _, c := range cs {
+		for k := range c.P.t {
+			if k != "" && (strings.Contains(k, "*") || strings.Contains(k, "^")) {
+				monos[k] = true
+			}
+		}
+	}
+	if len(monos) == 0 {
+		return cs
+	}
+	lbCache := map[string]int64{}
+	lower := func(a string) (int64, bool) {
+		if v, ok := lbCache[a]; ok {
+			return v, v >= 0
+		}
+		for _, l := range []int64{2, 1, 0} {
+			if !satCore(append(append([]Constraint{}, cs...), CLe(PAtom(a), PInt(l-1)))) {
+				lbCache[a] = l
+				return l, true
+			}
+		}
+		lbCache[a] = -1
+		return 0, false
+	}
+	out := cs
+	for k := range monos {
+		m := parseMono(k)
+		prod := int64(1)
+		ok := true
+		for _, f := range m {
+			if f.e < 1 {
+				ok = false
+				break
+			}
+			l, has := lower(f.a)
+			if !has {
+				ok = false
+				break
+			}
+			for i := 0; i < f.e; i++ {
+				prod *= l
+			}
+		}
+		if !ok {
+			continue
+		}
+		mp := Poly{t: map[string]int64{k: 1}}
+		out = append(append([]Constraint{}, out...), CGe(mp, PInt(prod)))
+		// mono >= a_i · Π_{j≠i} l_j  (linear in a_i) for plain products
+		for i, f := range m {
+			if f.e != 1 {
+				continue
+			}
+			rest := int64(1)
+			for j, g := range m {
+				if j == i {
+					continue
+				}
+				l, _ := lower(g.a)
+				for e := 0; e < g.e; e++ {
+					rest *= l
+				}
+			}
+			if rest > 0 {
+				out = append(out, CGe(mp, PAtom(f.a).MulInt(rest)))
+			}
+		}
+	}
+	return out
+}
+
+// withDivAxioms adds, for every quotient atom q = idiv⟨p|d⟩ and remainder atom r = imod⟨p|d⟩ occurring in
+// the constraints whose operands are provably p >= 0 and d >= 1, the facts 0 <= q <= p (d·q <= p <= d·q+d-1
+// for a constant d) and 0 <= r <= d-1, r <= p.  Two rounds cover quotients of quotients.
+func withDivAxioms(cs []Constraint) []Constraint {
+	seen := map[string]bool{}
+	out := cs
+	for round := 0; round < 2; round++ {
+		var add []Constraint
+		for _, c := range out {
+			for _, a := range c.P.Atoms() {
+				sa, ok := structAtoms[a]
+				if !ok || seen[a] || !(sa.Div || sa.Mod) {
+					continue
+				}
+				d := sa.Shape[0]
+				nonneg := func(x Constraint) bool {
+					if v, ok := x.Trivial(); ok {
+						return v
+					}
+					return !satCore(append(append([]Constraint{}, out...), x.Not()))
+				}
+				if !nonneg(CGe(sa.Lin, PInt(0))) || !nonneg(CGe(d, PInt(1))) {
+					continue
+				}
+				seen[a] = true
+				q := PAtom(a)
+				if sa.Div {
+					add = append(add, CGe(q, PInt(0)), CLe(q, sa.Lin))
+					if dc, isC := d.Const(); isC {
+						add = append(add, CLe(q.MulInt(dc), sa.Lin), CLe(sa.Lin, q.MulInt(dc).AddInt(dc-1)))
+					}
+				} else {
+					add = append(add, CGe(q, PInt(0)), CLe(q, d.AddInt(-1)), CLe(q, sa.Lin))
+				}
+			}
+		}
+		if len(add) == 0 {
+			break
+		}
+		out = append(append([]Constraint{}, out...), add...)
+	}
+	return out
+}
+
+func satCore(cs []Constraint) bool {
 	var les []Poly
 	var nes []Poly
 	for _, c := range cs {
@@ -208,7 +332,7 @@ func satNE(les []Poly, nes []Poly) bool {
 			x := PAtom(v)
 			// does les entail v >= val (then v != val gives v >= val+1), or v <= val?
 			geq := !fm(append(append([]Poly{}, les...), x.Sub(PInt(val)).AddInt(1))) // refute v <= val-1
-			leq := !fm(append(append([]Poly{}, les...), PInt(val).Sub(x).AddInt(1)))  // refute v >= val+1
+			leq := !fm(append(append([]Poly{}, les...), PInt(val).Sub(x).AddInt(1))) // refute v >= val+1
 			switch {
 			case geq && leq:
 				return false // v == val is forced
